@@ -84,6 +84,95 @@ def run(ctx):
                                   inp, observed={"out": (r.out or b"")[:120], "exc": repr(r.exc), "log": r.log[-1:]},
                                   required=(ref[(view, gplus)] or b"")[:120], replay=rp)
                 res.count("after:" + ("ok" if rows == ref[(view, gplus)] else "BAD"))
+        # ---- two readers racing on one damaged cache file: both have opened and failed to load it before either acts on that.
+        # Forced with a barrier inside the load (no scheduler luck); each must still get the complete listing.
+        import threading
+        import pygopherd.handlers.dir as dirmod
+        d = dirs[0]
+        cpath = tree.path(d + "/" + cachefile)
+        view, gplus = listing.VIEWS[0]
+        if os.path.exists(cpath):
+            os.unlink(cpath)
+        ref0 = listing.real_rows(view, gplus, cfg, d)[0]
+        written = open(cpath, "rb").read()
+        for k in (0, 1, len(written) // 2, len(written) - 1, "zeros"):
+            data = bytes(len(written)) if k == "zeros" else written[:k]
+            with open(cpath, "wb") as f:
+                f.write(data)
+            barrier = threading.Barrier(2, timeout=3)
+            barrier_failed = threading.Barrier(2, timeout=3)
+            barrier_unlink = threading.Barrier(2, timeout=0.5)
+            barrier_unlinked = threading.Barrier(2, timeout=0.5)
+            real_unlink = os.unlink
+
+            def synced_unlink(path, *a, **kw):
+                # whatever a reader removes in reaction to the damaged file, the other reader is at the same point
+                if os.fsencode(path).endswith(os.fsencode(cachefile)):
+                    try:
+                        barrier_unlink.wait()
+                    except threading.BrokenBarrierError:
+                        pass
+                    try:
+                        return real_unlink(path, *a, **kw)
+                    finally:
+                        try:
+                            barrier_unlinked.wait()     # both have made their attempt before either goes on (and may recreate the file)
+                        except threading.BrokenBarrierError:
+                            pass
+                return real_unlink(path, *a, **kw)
+
+            class Shim:
+                dump = staticmethod(pickle.dump)
+                dumps = staticmethod(pickle.dumps)
+                loads = staticmethod(pickle.loads)
+                UnpicklingError = pickle.UnpicklingError
+                PickleError = pickle.PickleError
+                PicklingError = pickle.PicklingError
+                HIGHEST_PROTOCOL = pickle.HIGHEST_PROTOCOL
+                Pickler = pickle.Pickler
+                Unpickler = pickle.Unpickler
+
+                @staticmethod
+                def load(fp, *a, **kw):
+                    try:
+                        barrier.wait()          # the other reader has the damaged file open as well
+                    except threading.BrokenBarrierError:
+                        pass
+                    try:
+                        return pickle.load(fp, *a, **kw)
+                    except BaseException:
+                        try:
+                            barrier_failed.wait()       # ... and has failed to load it as well, before either goes on
+                        except threading.BrokenBarrierError:
+                            pass
+                        raise
+            outs2 = [None, None]
+
+            def reader(i_):
+                rq_, tls_ = listing.request_for(view, gplus, d)
+                r_ = pyg.request(rq_, cfg, tls=tls_, reset=False)
+                outs2[i_] = r_
+            orig = dirmod.pickle
+            dirmod.pickle = Shim
+            os.unlink = synced_unlink
+            try:
+                ths = [threading.Thread(target=reader, args=(i_,)) for i_ in range(2)]
+                for t_ in ths:
+                    t_.start()
+                for t_ in ths:
+                    t_.join(20)
+            finally:
+                dirmod.pickle = orig
+                os.unlink = real_unlink
+            for i_, r_ in enumerate(outs2):
+                res.evaluations += 1
+                res.nontrivial.add(("two-readers", k, i_))
+                rows_ = listing.rows_region(view, gplus, r_.out, cfg) if r_ is not None else None
+                if rows_ != ref0:
+                    res.violation("C11:truncated-cache:two-readers", "one of two requests that both met a cut-off cache file does not return the correct, complete listing",
+                                  {"dir": d, "cut_at": k, "cache_size": len(written), "reader": i_},
+                                  observed={"out": (r_.out or b"")[:120] if r_ is not None else None, "exc": repr(getattr(r_, "exc", None))},
+                                  required=(ref0 or b"")[:120], replay={"dir": d, "cut_at": k, "view": view, "gplus": gplus})
         # ---- the ZIP index cache: every file the server wrote for it, at every prefix, and the cache name itself holding
         # each of those prefixes (what a dbm back end that keeps its data under the bare name would leave behind)
         import glob
